@@ -75,9 +75,12 @@ IsPrefix(s, t) == Len(s) <= Len(t) /\ \A j \in 1..Len(s) : s[j] = t[j]
 (***************************************************************************)
 (* C04 transparency: same examples, same order, each once.                 *)
 (***************************************************************************)
+\* end = "refused": the back end refused to run the pipeline at all, before
+\* any user code ran (e.g. a process back end that cannot pickle the task)
 V_C04(log, end, exp) ==
   LET d == Delivered(log) IN
-  IF ~IsPrefix(d, exp.items) THEN VViol("delivered-not-a-prefix-of-sequential")
+  IF end = "refused" THEN VTriv("backend-refused-the-pipeline")
+  ELSE IF ~IsPrefix(d, exp.items) THEN VViol("delivered-not-a-prefix-of-sequential")
   ELSE IF end = "returned" /\ exp.out = "returned" /\ d # exp.items
        THEN VViol("returned-before-all-examples-were-delivered")
   ELSE IF end = "returned" /\ exp.out = "returned" THEN VOk
@@ -121,10 +124,15 @@ V_C05(log, end, deadlock, alive, cancellableStarted) ==
 \* are not delivered; C06 only demands that it is not swallowed.
 V_C06(log, end, exp, srcForeground) ==
   LET d == Delivered(log) IN
-  IF end \in {"closed", "thrown", "deadlock", "diverged"} THEN VTriv("consumer-stopped-first")
+  IF end = "refused" THEN VTriv("backend-refused-the-pipeline")
+  ELSE IF end \in {"closed", "thrown", "deadlock", "diverged"} THEN VTriv("consumer-stopped-first")
   ELSE IF exp.out = "returned" THEN
-    (IF end = "returned" THEN VTriv("no-failure-injected")
-     ELSE VViol("raised-although-nothing-fails"))
+    \* nothing may propagate: every failure (if any) is of a caught type and
+    \* EXACTLY the failing examples are omitted
+    (IF end # "returned" THEN VViol("raised-although-nothing-uncaught-fails")
+     ELSE IF d # exp.items THEN VViol("catch-omits-not-exactly-the-failing-examples")
+     ELSE IF \E j \in 1..Len(log) : log[j].op = "ret" /\ log[j].b = 0 THEN VOk
+     ELSE VTriv("no-failure-injected"))
   ELSE IF end = "returned" THEN VViol("failure-swallowed-stream-truncated")
   ELSE IF srcForeground /\ exp.out = "raised_src" THEN
     (IF end \in {"raised_exc", "raised_base"} /\ IsPrefix(d, exp.items)
@@ -146,6 +154,20 @@ MaxAhead(log, P(_)) ==
         IF j > Len(log) THEN mx
         ELSE LET x2 == x + (IF P(log[j]) THEN 1 ELSE 0)
                  y2 == y + (IF IsDeliver(log[j]) THEN 1 ELSE 0)
+             IN Go(j + 1, x2, y2, IF x2 - y2 > mx THEN x2 - y2 ELSE mx)
+  IN Go(1, 0, 0, 0)
+
+\* the same, but examples that were started, failed and are dropped by
+\* catch_filter_exception (items in `caught`) count as consumed once they
+\* have finished: they occupy no buffer slot for longer than a delivered one
+MaxAheadCaught(log, P(_), caught) ==
+  LET RECURSIVE Go(_, _, _, _)
+      Go(j, x, y, mx) ==
+        IF j > Len(log) THEN mx
+        ELSE LET x2 == x + (IF P(log[j]) THEN 1 ELSE 0)
+                 y2 == y + (IF IsDeliver(log[j])
+                               \/ (log[j].op = "ret" /\ log[j].b = 0 /\ log[j].a \in caught)
+                            THEN 1 ELSE 0)
              IN Go(j + 1, x2, y2, IF x2 - y2 > mx THEN x2 - y2 ELSE mx)
   IN Go(1, 0, 0, 0)
 
